@@ -1235,6 +1235,16 @@ func ShouldFoldBinaryOperatorWhenMinifying(binary *EBinary) bool {
 
 // This function intentionally avoids mutating the input AST so it can be
 // called after the AST has been frozen (i.e. after parsing ends).
+// This implements "Number::exponentiate" from the JavaScript specification.
+// Go's "math.Pow" returns 1 for "Pow(1, NaN)" and for "Pow(±1, ±Inf)" but
+// JavaScript's "**" operator returns NaN in those cases.
+func jsPow(base float64, exponent float64) float64 {
+	if math.IsNaN(exponent) || (math.IsInf(exponent, 0) && math.Abs(base) == 1) {
+		return math.NaN()
+	}
+	return math.Pow(base, exponent)
+}
+
 func FoldBinaryOperator(loc logger.Loc, e *EBinary) Expr {
 	switch e.Op {
 	case BinOpAdd:
@@ -1267,7 +1277,7 @@ func FoldBinaryOperator(loc logger.Loc, e *EBinary) Expr {
 
 	case BinOpPow:
 		if left, right, ok := extractNumericValues(e.Left, e.Right); ok {
-			return Expr{Loc: loc, Data: &ENumber{Value: math.Pow(left, right)}}
+			return Expr{Loc: loc, Data: &ENumber{Value: jsPow(left, right)}}
 		}
 
 	case BinOpShl:
